@@ -75,6 +75,10 @@ def kind_of(ch, inst):
     return 0 if ch in '0123456789' else 1
 
 
+class NotFinite(Exception):
+    """checksum() is not a function of a bounded state: the values it returns over strings of growing length do not close"""
+
+
 def extract(inst):
     """Measure the implementation's automaton.  States are (checksum value, len mod period) plus a
     distinct initial state; witnesses are kept so that every entry can be re-asked."""
@@ -107,7 +111,7 @@ def extract(inst):
         delta[q] = row
         i += 1
         if len(ids) > 5000:
-            raise run.MachineryError('extraction of %s does not close (more than 5000 states)' % inst['name'])
+            raise NotFinite(inst['name'], wit[max(wit)])
     acc = []
     for key in order[1:]:
         q = ids[key]
@@ -200,7 +204,14 @@ def conformance(chk, inst, aut, ids, wit, apath, nsim):
 
 def mc_extracted(chk, inst):
     """Extract the implementation's automaton and model-check the product automaton on it."""
-    aut, ids, wit = extract(inst)
+    try:
+        aut, ids, wit = extract(inst)
+    except NotFinite as e:
+        # the any-length claim is decided on a finite automaton; an implementation whose checksum values keep growing with the
+        # length of the string (a forgotten reduction) has none -- that is the finding, not a failure of the machinery
+        chk.violation('FiniteFold', module=inst['name'], site='extracted automaton', witness=e.args[1][:80],
+                      detail={'what': 'checksum() returned more than 5000 distinct (value, length mod period) states: it is not the finite fold the algorithm defines'})
+        return None, None, None, None
     apath = os.path.join(chk.work, 'aut_%s.json' % inst['name'])
     with open(apath, 'w') as fh:
         json.dump(aut, fh)
@@ -243,6 +254,8 @@ def main():
     n_strings = 0
     for inst in insts:
         aut, ids, wit, apath = mc_extracted(chk, inst)
+        if aut is None:
+            continue
         events = conformance(chk, inst, aut, ids, wit, apath, 40 if quick else 600)
         n_strings += len(events)
         if len(samples) < 6:
